@@ -96,7 +96,9 @@ TReal ==
   /\ Rec.e = "Real"
   /\ LET bad == Rec.hang \/ Rec.exc # "" IN
      IF bad THEN
-       /\ Note((IF Rec.hang THEN {"C08.Terminates"} ELSE {}) \cup (IF Rec.exc # "" THEN {"C08.Abort"} ELSE {}))
+       \* (the recording geometry refuses a call whose navigator precondition does not hold)
+       /\ Note((IF Rec.hang THEN {"C08.Terminates"} ELSE {})
+               \cup (IF Rec.exc # "" THEN {IF Rec.protocol THEN "C08.NavProtocol" ELSE "C08.Abort"} ELSE {}))
        /\ stat' = [stat EXCEPT !.real = @ + 1, !.hang = @ + (IF Rec.hang THEN 1 ELSE 0), !.none = @ + 1]
      ELSE
        LET k == Rec.k  res == Rec.res  calls == Rec.calls  orc == Rec.orc
